@@ -42,6 +42,23 @@ PLAN = {
                      "T1 (mathematical fact, not proved here): for a valid polygon (holes inside the shell, wound "
                      "opposite to it) and a point on no ring, strictly inside <=> winding number != 0"],
     ),
+    'C03': dict(
+        modules=['c03_rtree'], level='other',
+        trusted_base=COMMON_TRUST,
+        assumptions=[MATH_ARITH],
+        explanation="index arithmetic (_left_child/_right_child/_parent/_leaf_start/_start_index/_stop_index incl. "
+                    "termination) and the tiling lemmas are proved; build and query worklist (python lists of symbolic "
+                    "length) are outside the engine's subset and covered by the run-time checked API contract (bounded)",
+    ),
+    'C08': dict(
+        modules=['c08_hilbert_distance'], level='other',
+        trusted_base=COMMON_TRUST + ["assumed numpy contracts: element-wise arithmetic with a scalar, astype(int64) = "
+                                     "truncation of finite values, boolean-mask store"],
+        assumptions=[MATH_ARITH, "distances_from_coordinates is used through an assumed math-mode view of the "
+                     "bit-vector function verified under C07"],
+        explanation="numeric core (_data2coord, _distances_from_bounds) proved; GeometryArray.hilbert_distance (list/tuple "
+                    "handling, frame) covered by the run-time checked contract (bounded)",
+    ),
     'C13': dict(
         modules=['c13_bounds'], level='proof',
         trusted_base=COMMON_TRUST,
